@@ -14,7 +14,7 @@ ORACLES = ['c02']
 
 def run(ctx):
     histcheck.run_property(ctx, PROFILES, ORACLES, n_quick=48, n_thorough=700, nsteps=32 if ctx.quick() else 45,
-                           own_oracle="c02")
+                           own_oracle="c02", with_extras=True)
 
 
 def replay(ctx, path):
